@@ -172,7 +172,7 @@ def values_file(pair, pkg):
         items = []
         sty, dty = root_types(spec, c["type"])
         if pkg == "src":
-            if c["dir"] == "to":
+            if c["dir"] in ("to", "rt"):
                 items.append(("In", sty, c["in"]))
             else:
                 items.append(("Recv", sty, c["recv"]))
@@ -221,6 +221,7 @@ def main_file(pairs):
             continue
         s, d = "s%d" % p.idx, "d%d" % p.idx
         need_d = any(c["dir"] == "from" for c in p.cases) or bool(getattr(p, "setcalls", {}).get("dst"))
+        tyname = p.spec["root"]
         imps.append('\t%s "vmod/%s/src"' % (s, p.sub))
         if need_d:
             imps.append('\t%s "vmod/%s/dest"' % (d, p.sub))
@@ -234,7 +235,11 @@ def main_file(pairs):
                 calls.append("\t%s.VerifCalls = nil" % d)
             if c["type"] == p.spec["root"] and c["dir"] == "from" and rec.get("src"):
                 calls.append("\t%s.VerifCalls = nil" % s)
-            if c["dir"] == "to":
+            if c["dir"] == "rt":
+                # round trip on a fresh receiver: new(S).FromX(v.ToX())
+                calls.append('\trun("%s", func() any { return new(%s.%s).%s(%s.VerifIn%d().%s()) })' % (
+                    cid, s, c["type"], from_name, s, k, to_name))
+            elif c["dir"] == "to":
                 calls.append('\trun("%s", func() any { return %s.VerifIn%d().%s() })' % (cid, s, k, to_name))
             else:
                 calls.append('\trun("%s", func() any { return %s.VerifRecv%d().%s(%s.VerifIn%d()) })' % (
@@ -335,10 +340,11 @@ def coq_case(pair, c):
     def ptr(v):
         return "VNil" if v is None else "(VPtr %s)" % mapgen.coq_val(v)
     sc = c.get("setcalls")
-    return ('{| c_ps := PS%d; c_type := "%s"; c_to := %s; c_in := %s; c_recv := %s; c_obs := %s; c_setcalls := %s |}'
-            % (pair.idx, c["type"], "true" if c["dir"] == "to" else "false", ptr(c["in"]),
+    return ('{| c_ps := PS%d; c_type := "%s"; c_to := %s; c_in := %s; c_recv := %s; c_obs := %s; c_setcalls := %s; c_rt := %s |}'
+            % (pair.idx, c["type"], "true" if c["dir"] in ("to", "rt") else "false", ptr(c["in"]),
                ptr(c.get("recv")), coq_obs(c["obs"]),
-               "None" if sc is None else "(Some [%s])" % "; ".join('"%s"' % x for x in sc)))
+               "None" if sc is None else "(Some [%s])" % "; ".join('"%s"' % x for x in sc),
+               "true" if c["dir"] == "rt" else "false"))
 
 
 HEADER = ("From Coq Require Import String List ZArith NArith Bool.\n"
@@ -373,7 +379,8 @@ def coq_verdicts(run, pairs, tag="mc", shard_cases=250, par=6, extra_defs="", fn
                 index.append((p.idx, ci))
                 terms.append(coq_case(p, c))
         guards = "Definition G := Eval vm_compute in [%s].\nPrint G.\n" % "; ".join(
-            "(%d%%N, if %s (ps_env PS%d) (ps_fuel PS%d) (ps_jobs PS%d) then 1%%N else 0%%N)" % (p.idx, guard, p.idx, p.idx, p.idx)
+            "(%d%%N, if %s (ps_env PS%d) (ps_fuel PS%d) (ps_jobs PS%d) then 1%%N else 0%%N)" % (
+                p.idx, ("pair_guard_w (ps_way PS%d)" % p.idx) if guard == "pair_guard" else guard, p.idx, p.idx, p.idx)
             for p in ps)
         ways = "Definition W := Eval vm_compute in way_mismatches [%s].\nPrint W.\n" % "; ".join(
             "(%d%%N, PS%d, %s, %s)" % (p.idx, p.idx, "true" if p.methods[0] else "false", "true" if p.methods[1] else "false")
